@@ -56,6 +56,9 @@ def run_once(wn, scn, rec, wall_cap=60, sim_holder=None):
         if backup.get('solver') == 'fsolve':
             import scipy.optimize
             kw['backup_solver'] = scipy.optimize.fsolve
+        elif backup.get('solver') == 'krylov':
+            import scipy.optimize
+            kw['backup_solver'] = scipy.optimize.newton_krylov
     rec.wn = wn
     res = None
     exc = None
